@@ -2,6 +2,7 @@ import I18n.Lemmas.CharsetTables
 import I18n.Lemmas.CharsetCharmaps
 import I18n.Lemmas.CharsetIconv
 import I18n.Lemmas.CharsetIconvSchedule
+import I18n.Lemmas.CharsetIconvCodecs
 import I18n.Lemmas.CharsetCheckTags
 import I18n.Lemmas.CharsetEucTw
 import I18n.Lemmas.CharsetEucTwReal
@@ -631,6 +632,172 @@ theorem iconv_loop_error_span (step : Step) (input : List UInt8) (n fuel s e : N
     · cases h
     · have := encodeLoop_error_span step n hc fuel n s e h
       omega
+
+/-! ### the iconv-backed codecs end to end: the loop of `lib/iconv.py` ∘ a reference iconv for the charset
+
+`refDecStep` / `refEncStep` (`Lemmas/CharsetIconvRef`): an iconv that converts unit by unit, checks the room first as glibc's
+skeleton does, leaves the offending unit unconsumed.  Its description of EUC-TW is `eucTwUnit` / `eucTwEncodeChar` over the
+tables of the system iconv; of KOI8-T, glibc's single-byte table. -/
+
+/-- **`bytes.decode('EUC-TW')` as the tool implements it** (loop ∘ reference iconv over the real tables), for every byte string
+    and any fuel ≥ 3 rounds: the text `eucTwDecodeReal` yields, or `UnicodeDecodeError` with `start` = the offset of the
+    offending unit and `start < end ≤ len(input)`; never ValueError / AssertionError / OSError -/
+theorem euctw_codec_decode (bs : List UInt8) (fuel : Nat) (hfuel : 3 ≤ fuel) :
+    (∀ cs, eucTwDecodeReal bs = .ok cs → (decodeDl (refDecStep (eucUnitFn cnsReal) bs) bs fuel).1 = .ok cs) ∧
+    (∀ s k, eucTwDecodeReal bs = .error (s, k) →
+      (decodeDl (refDecStep (eucUnitFn cnsReal) bs) bs fuel).1 = .unicodeError s (syncEnd bs s) ∧ s < syncEnd bs s ∧ syncEnd bs s ≤ bs.length) := by
+  constructor
+  · intro cs h
+    have hv : ∀ c ∈ cs, c ≤ 0x10FFFF := by
+      intro c hc
+      have := ((decodeLoop_real_facts bs.length 0 0 bs cs h).2.1 c hc).1
+      simp only [isScalar, Bool.and_eq_true, decide_eq_true_eq] at this
+      exact this.1
+    have h' : unitDecodeLoop (eucUnitFn cnsReal) bs.length 0 bs = .ok cs := by rw [← eucTwDecodeLoop_eq]; exact h
+    exact decodeDl_ref_ok _ (eucUnitFn_wf cnsReal) bs cs fuel h' hv hfuel
+  · intro s k h
+    have h' : unitDecodeLoop (eucUnitFn cnsReal) bs.length 0 bs = .error (s, k) := by rw [← eucTwDecodeLoop_eq]; exact h
+    exact decodeDl_ref_err _ (eucUnitFn_wf cnsReal) bs s k fuel h' hfuel
+
+/-- **`str.encode('EUC-TW')` as the tool implements it**: the bytes `eucTwEncodeReal` yields, or `UnicodeEncodeError(i, i + 1)` at
+    the first character without a code, `i < len(input)` -/
+theorem euctw_codec_encode (cs : List Nat) (fuel : Nat) (hfuel : 3 ≤ fuel) :
+    (∀ bs, eucTwEncodeReal cs = .ok bs → (encodeDl (refEncStep (eucTwEncodeChar invReal) cs) cs.length fuel).1 = .ok bs) ∧
+    (∀ i, eucTwEncodeReal cs = .error i →
+      (encodeDl (refEncStep (eucTwEncodeChar invReal) cs) cs.length fuel).1 = .unicodeError i (i + 1) ∧ i < cs.length) := by
+  constructor
+  · intro bs h
+    have h' : encodeAllFrom (eucTwEncodeChar invReal) 0 cs = .ok bs := by rw [← eucTwEncodeFrom_eq]; exact h
+    exact encodeDl_ref_ok _ (eucTwEncodeChar_max invReal) cs bs fuel h' hfuel
+  · intro i h
+    have h' : encodeAllFrom (eucTwEncodeChar invReal) 0 cs = .error i := by rw [← eucTwEncodeFrom_eq]; exact h
+    exact encodeDl_ref_err _ (eucTwEncodeChar_max invReal) cs i fuel h' hfuel
+
+/-- **the clause itself, end to end, for EUC-TW**: whenever the tool's decode of `b` succeeds with text `t`, the tool's encode
+    of `t` returns `b` iff `b` contains no redundant unit (four-byte plane 1, `8E A3 A1 B8`); it never fails on such `t` -/
+theorem euctw_codec_roundtrip (bs : List UInt8) (cs : List Nat) (fuel : Nat) (hfuel : 3 ≤ fuel)
+    (h : (decodeDl (refDecStep (eucUnitFn cnsReal) bs) bs fuel).1 = .ok cs) :
+    eucTwDecodeReal bs = .ok cs ∧
+    ((encodeDl (refEncStep (eucTwEncodeChar invReal) cs) cs.length fuel).1 = .ok bs ↔ eucTwNoRedundant cnsReal bs.length bs = true) ∧
+    ∃ bs', (encodeDl (refEncStep (eucTwEncodeChar invReal) cs) cs.length fuel).1 = .ok bs' := by
+  have hd : eucTwDecodeReal bs = .ok cs := by
+    cases hdec : eucTwDecodeReal bs with
+    | ok cs' =>
+      have := (euctw_codec_decode bs fuel hfuel).1 cs' hdec
+      rw [this] at h
+      cases h; rfl
+    | error e =>
+      obtain ⟨s, k⟩ := e
+      have := ((euctw_codec_decode bs fuel hfuel).2 s k hdec).1
+      rw [this] at h
+      cases h
+  obtain ⟨bs', he, _, _, _⟩ := euctw_encode_short_form bs cs hd
+  have hl := (euctw_codec_encode cs fuel hfuel).1 bs' he
+  refine ⟨hd, ?_, bs', hl⟩
+  rw [← euctw_roundtrip bs cs hd, hl, he]
+  constructor
+  · intro hx; cases hx; rfl
+  · intro hx; cases hx; rfl
+
+/-- **KOI8-T as the tool's own iconv-backed codec sees it** (loop ∘ reference iconv over glibc's table): decoding yields what the
+    table yields, an undefined byte at `s` gives `UnicodeDecodeError(s, next ASCII byte or end)`; encoding a text without TAG
+    characters yields what the table yields, the first unencodable character at `s` gives `UnicodeEncodeError(s, s + 1)`; and
+    the two round-trip in both directions -/
+theorem koi8t_codec (bs : List UInt8) (cs : List Nat) (fuel : Nat) (hfuel : 3 ≤ fuel) :
+    (∀ t, charmapDecode koi8tTable bs = .ok t → (decodeDl (refDecStep (tableUnitFn koi8tTable) bs) bs fuel).1 = .ok t ∧
+      (encodeDl (refEncStep (sbEncodeChar koi8tTable) t) t.length fuel).1 = .ok bs) ∧
+    (∀ s e, charmapDecode koi8tTable bs = .error (s, e) →
+      (decodeDl (refDecStep (tableUnitFn koi8tTable) bs) bs fuel).1 = .unicodeError s (syncEnd bs s) ∧ s < syncEnd bs s ∧ syncEnd bs s ≤ bs.length) ∧
+    ((∀ c ∈ cs, isTag c = false) →
+      (∀ b, charmapEncode koi8tTable cs = .ok b → (encodeDl (refEncStep (sbEncodeChar koi8tTable) cs) cs.length fuel).1 = .ok b ∧
+        (decodeDl (refDecStep (tableUnitFn koi8tTable) b) b fuel).1 = .ok cs) ∧
+      (∀ s e, charmapEncode koi8tTable cs = .error (s, e) →
+        (encodeDl (refEncStep (sbEncodeChar koi8tTable) cs) cs.length fuel).1 = .unicodeError s (s + 1) ∧ s < cs.length)) := by
+  have hwf := tableUnitFn_wf koi8tTable
+  have hmax := sbEncodeChar_max koi8tTable
+  have hdec : ∀ (b : List UInt8) (t : List Nat), charmapDecode koi8tTable b = .ok t →
+      (decodeDl (refDecStep (tableUnitFn koi8tTable) b) b fuel).1 = .ok t := by
+    intro b t h
+    have h' : unitDecodeLoop (tableUnitFn koi8tTable) b.length 0 b = .ok t := by
+      rw [tableDecode_eq koi8tTable b b.length 0 (Nat.le_refl _)]
+      unfold charmapDecode at h
+      rw [h]
+    have hv : ∀ c ∈ t, c ≤ 0x10FFFF := by
+      have hall : (koi8tTable.all fun c => c ≤ 0x10FFFF) = true := by decide +kernel
+      rw [List.all_eq_true] at hall
+      have hmem : ∀ (b : List UInt8) (i : Nat) (t : List Nat), charmapDecodeFrom koi8tTable i b = .ok t → ∀ c ∈ t, c ∈ koi8tTable := by
+        intro b
+        induction b with
+        | nil => intro i t h c hc; simp [charmapDecodeFrom] at h; subst h; simp at hc
+        | cons x xs ih =>
+          intro i t h c hc
+          simp only [charmapDecodeFrom] at h
+          split at h
+          · cases h
+          · rename_i c' hc'
+            split at h
+            · cases h
+            · split at h
+              · cases h
+              · rename_i t' ht'
+                cases h
+                rcases List.mem_cons.1 hc with rfl | hc
+                · exact List.mem_of_getElem? hc'
+                · exact ih _ _ ht' c hc
+      intro c hc
+      have := hall c (hmem b 0 t h c hc)
+      simpa using this
+    exact decodeDl_ref_ok _ hwf b t fuel h' hv hfuel
+  have henc : ∀ (t : List Nat) (b : List UInt8), (∀ c ∈ t, isTag c = false) → charmapEncode koi8tTable t = .ok b →
+      (encodeDl (refEncStep (sbEncodeChar koi8tTable) t) t.length fuel).1 = .ok b := by
+    intro t b ht h
+    have h' : encodeAllFrom (sbEncodeChar koi8tTable) 0 t = .ok b := by
+      rw [sbEncode_eq koi8tTable t 0 ht]
+      unfold charmapEncode at h
+      rw [h]
+    exact encodeDl_ref_ok _ hmax t b fuel h' hfuel
+  refine ⟨?_, ?_, ?_⟩
+  · intro t h
+    refine ⟨hdec bs t h, henc t bs ?_ (koi8t_table_roundtrip bs t h)⟩
+    -- no decoded character is a TAG character: the table has none
+    have hall : (koi8tTable.all fun c => !isTag c) = true := by decide +kernel
+    rw [List.all_eq_true] at hall
+    intro c hc
+    have hmem : ∀ (b : List UInt8) (i : Nat) (t : List Nat), charmapDecodeFrom koi8tTable i b = .ok t → ∀ c ∈ t, c ∈ koi8tTable := by
+      intro b
+      induction b with
+      | nil => intro i t h c hc; simp [charmapDecodeFrom] at h; subst h; simp at hc
+      | cons x xs ih =>
+        intro i t h c hc
+        simp only [charmapDecodeFrom] at h
+        split at h
+        · cases h
+        · rename_i c' hc'
+          split at h
+          · cases h
+          · split at h
+            · cases h
+            · rename_i t' ht'
+              cases h
+              rcases List.mem_cons.1 hc with rfl | hc
+              · exact List.mem_of_getElem? hc'
+              · exact ih _ _ ht' c hc
+    have := hall c (hmem bs 0 t h c hc)
+    simpa using this
+  · intro s e h
+    have h' : unitDecodeLoop (tableUnitFn koi8tTable) bs.length 0 bs = .error (s, false) := by
+      rw [tableDecode_eq koi8tTable bs bs.length 0 (Nat.le_refl _)]
+      unfold charmapDecode at h
+      rw [h]
+    exact decodeDl_ref_err _ hwf bs s false fuel h' hfuel
+  · intro ht
+    refine ⟨fun b h => ⟨henc cs b ht h, hdec b cs (koi8t_table_bijective.1 cs b h)⟩, ?_⟩
+    intro s e h
+    have h' : encodeAllFrom (sbEncodeChar koi8tTable) 0 cs = .error s := by
+      rw [sbEncode_eq koi8tTable cs 0 ht]
+      unfold charmapEncode at h
+      rw [h]
+    exact encodeDl_ref_err _ hmax cs s fuel h' hfuel
 
 /-- the binding is NOT total as a general API: an iconv that hands back a wide character above U+10FFFF (glibc does for the
     UTF-8 bytes F5 8F 9E 8D, target WCHAR_T) makes `outbuf[:n]` raise ValueError instead of a Unicode error.  None of the five
